@@ -20,7 +20,7 @@
 -/
 import PyGqlModel.ExecOp
 
-namespace PyGql.Exec
+namespace PyGql.AsyncExec
 
 /-- plain values flowing through callbacks -/
 inductive Val where
@@ -317,4 +317,4 @@ def deliverSlots (ap : ApplyCont) (t : Nat) : Nodes → ExecSt → Nodes × List
     (.cons n' ns', here ++ fired, s2)
 end
 
-end PyGql.Exec
+end PyGql.AsyncExec
